@@ -30,6 +30,12 @@ func checkC13(r *Run) {
 			b.Tags = append(b.Tags, "dotted-import-path")
 		}
 		label := fmt.Sprintf("separate-package/override=%v", override)
+		if len(pairs)%5 == 1 && a.File.Dep == nil {
+			// a struct package whose Go name is not all lower case
+			a.MixedCasePkg, b.MixedCasePkg = true, true
+			b.Tags = append(b.Tags, "mixed-case-package-name")
+			label += "/mixed-case-package"
+		}
 		switch {
 		case len(pairs)%4 == 2:
 			// the terraform package is named like the struct package (another directory)
